@@ -221,12 +221,28 @@ func TestC18Binary(t *testing.T) {
 		short := time.Duration(rapid.IntRange(5, 50).Draw(t, "short_pct")) * W / 100
 		withNever := rapid.Bool().Draw(t, "never")
 		grace := time.Duration(rapid.SampledFrom([]int{0, 0, 100, 300}).Draw(t, "grace_ms")) * time.Millisecond
+		// a long grace period with a request that arrives during it: it is in flight when the
+		// listeners close and needs half of the wait from then on
+		late := rapid.IntRange(0, 1).Draw(t, "late-request-in-grace-period") == 0
+		var lateDur time.Duration
+		if late {
+			if W < 800*time.Millisecond {
+				W += 800 * time.Millisecond
+				short = short + 0 // unchanged: still well inside the wait
+			}
+			grace = W
+			lateDur = grace/2 + W/2
+		}
 		up := httptest.NewServer(http.HandlerFunc(func(w http.ResponseWriter, r *http.Request) {
 			if r.URL.Path == "/never" {
 				<-r.Context().Done()
 				return
 			}
-			time.Sleep(short)
+			if r.URL.Path == "/late" {
+				time.Sleep(lateDur)
+			} else {
+				time.Sleep(short)
+			}
 			io.WriteString(w, "done")
 		}))
 		// not closed with Close(): it would wait for the request that never ends
@@ -268,18 +284,33 @@ func TestC18Binary(t *testing.T) {
 		sig := time.Now()
 		p.cmd.Process.Signal(syscall.SIGTERM)
 		hx.Eval()
+		lateRes := make(chan res, 1)
+		if late {
+			go func() {
+				time.Sleep(grace / 2)
+				get("/late", lateRes)
+			}()
+		}
 		limit := grace + W + 3*time.Second
 		select {
 		case <-p.exited:
 		case <-time.After(limit + 5*time.Second):
 			t.Fatalf("the process is still running %v after SIGTERM (proxy.shutdownwait=%v, deregistergraceperiod=%v, never-ending request=%v)\n%s", time.Since(sig), W, grace, withNever, tail(p.out.String()))
 		}
+		exitedAfter := time.Since(sig).Round(time.Millisecond)
 		if took := time.Since(sig); took > limit {
 			t.Fatalf("the process exited %v after SIGTERM (proxy.shutdownwait=%v, deregistergraceperiod=%v)", took, W, grace)
 		}
 		r := <-shortRes
 		if r.err != nil || r.code != 200 || r.body != "done" {
 			t.Fatalf("a request that needed %v was in flight when SIGTERM arrived (shutdownwait %v) and did not complete normally: %+v\n%s", short, W, r, tail(p.out.String()))
+		}
+		if late {
+			r := <-lateRes
+			if r.err != nil || r.code != 200 || r.body != "done" {
+				t.Fatalf("deregistergraceperiod=%v, shutdownwait=%v: a request that arrived %v after SIGTERM (during the grace period, listeners still open) and needed %v - it ends %v after the listeners close, inside the wait - did not complete normally: %+v; the process exited %v after SIGTERM\n%s", grace, W, grace/2, lateDur, W/2, r, exitedAfter, tail(p.out.String()))
+			}
+			hx.Class("binary:request-arrives-in-grace-period")
 		}
 		if c, err := net.DialTimeout("tcp", addr, 300*time.Millisecond); err == nil {
 			c.Close()
